@@ -225,8 +225,22 @@ def instances(tier):
                     return f"result {SG.show(sub)} is not A * (T1 + T2) with A*T1, A*T2 the two addends"
 
                 yield ("DF", f"{t1} + {t2}", ctx_all, f, "factor")
+    # exponents written differently but numerically equal are the same exponent
+    for (e1, e2) in (("^2.0", "^2"), ("^2", "^2.0"), ("^3.0", "^3"), ("^0.50", "^0.5")):
+        for a, b in (("3", "4"), ("", "2"), ("-3", "0.5")):
+            t1, t2 = f"{a}x{e1}", f"{b}x{e2}"
+            s1, s2 = P(t1), P(t2)
+
+            def f(r, s, s1=s1, s2=s2):
+                sub = r["sub"]
+                if sub[0] != "*" or not same_fn(sub, ("+", None, s1, s2)):
+                    return f"result {SG.show(sub)} is not a product equal to the sum"
+                return None
+
+            yield ("DF", f"{t1} + {t2}", ["{S}", "({S}) * w", "w - ({S})"], f, "factor-equal-exponents-other-spelling")
     # constants only: refused unless enabled
-    for a, b in (("4", "6"), ("12", "6"), ("3", "12"), ("4", "4")):
+    for a, b in (("4", "6"), ("12", "6"), ("3", "12"), ("4", "4"), ("1018081", "1022117"), ("9", "15"), ("1022117", "2044234"),
+                 ("100160063", "100180081")):
         yield ("DF", f"{a} + {b}", ["{S}", "({S}) * w"], "refuse", "factor-constants-refused")
 
         def f(r, s, a=a, b=b):
@@ -320,7 +334,10 @@ def instances(tier):
                          (f"{o} + ({o2} + {t}) = {rhs}", f"{o} + {o2} = {rhs} - {t}"),
                          (f"{rhs} = {o} + {t} + {o2}", f"{rhs} - {t} = {o} + {o2}"), (f"{rhs} = {o} + {o2} + {t}", f"{rhs} - {t} = {o} + {o2}"),
                          (f"{rhs} = {t} + {o} + {o2}", f"{rhs} - {t} = {o} + {o2}"), (f"{rhs} = {o} + ({t} + {o2})", f"{rhs} - {t} = {o} + {o2}"),
-                         (f"({o} + {t}) - {o2} = {rhs}", f"{o} - {o2} = {rhs} - {t}")):
+                         (f"({o} + {t}) - {o2} = {rhs}", f"{o} - {o2} = {rhs} - {t}"),
+                         (f"{o} + {t} + 4 - {o2} = {rhs}", f"{o} + 4 - {o2} = {rhs} - {t}"),
+                         (f"{t} + {o} + 4 - {o2} = {rhs}", f"{o} + 4 - {o2} = {rhs} - {t}"),
+                         (f"{rhs} = {o} + {t} + 4 - {o2}", f"{rhs} - {t} = {o} + 4 - {o2}")):
             yield ("BM", eq, ["{S}"], ("node", t, expect_structural(want), "+"), "move-addend-deep")
     for c, X, rhs in itertools.product(["2", "3", "-3", "0.5", "12"], ["x", "x^2", "y"], ["6", "w", "2w"]):
         yield ("BM", f"{c}{X} = {rhs}", ["{S}"], ("node", c, expect_structural(f"{c}{X} / {c} = {rhs} / {c}"), "*"), "divide-coefficient")
